@@ -69,6 +69,10 @@ func main() {
 		os.Exit(cmdDump(os.Args[2:]))
 	case "variant":
 		os.Exit(cmdVariant(os.Args[2:]))
+	case "muteval":
+		os.Exit(cmdMutEval(os.Args[2:]))
+	case "mutsurvey":
+		os.Exit(cmdMutSurvey(os.Args[2:]))
 	default:
 		usage()
 	}
@@ -274,5 +278,38 @@ func cmdDump(args []string) int {
 	res, rets := t.BoolResult(0)
 	fmt.Println("returns always:", rets.IsTrue())
 	fmt.Println("result[0] true rows:", t.Render(res, 64))
+	return 0
+}
+
+func cmdMutEval(args []string) int {
+	fs := flag.NewFlagSet("muteval", flag.ExitOnError)
+	repo := fs.String("repo", "/repo", "")
+	verif := fs.String("verif", "", "")
+	fs.Parse(args)
+	var m sweep.Mutant
+	if err := json.NewDecoder(os.Stdin).Decode(&m); err != nil {
+		fmt.Fprintln(os.Stderr, err)
+		return 1
+	}
+	b, _ := json.Marshal(sweep.EvalMutant(m, *repo, verifDir(*verif)))
+	fmt.Println(string(b))
+	return 0
+}
+
+// mutsurvey is a development aid (DESIGN §6): it is not registered in MANIFEST.json.
+func cmdMutSurvey(args []string) int {
+	fs := flag.NewFlagSet("mutsurvey", flag.ExitOnError)
+	props := fs.String("property", "", "comma separated")
+	only := fs.String("only", "", "substring of the function name")
+	repo := fs.String("repo", "/repo", "")
+	verif := fs.String("verif", "", "")
+	par := fs.Int("par", 10, "")
+	out := fs.String("out", "", "jsonl output (appended; finished mutants are skipped)")
+	fs.Parse(args)
+	self, _ := os.Executable()
+	if err := sweep.Survey(self, *repo, verifDir(*verif), strings.Split(*props, ","), *only, *par, *out); err != nil {
+		fmt.Fprintln(os.Stderr, err)
+		return 1
+	}
 	return 0
 }
